@@ -43,6 +43,7 @@ CONFIG = {
                   'thorough': {'c18.lambda': 200000}},
     'must_sig': ['print:two_branch_child', 'print:constant',
                  'lambda:unused_argument', 'err:missing_variable', 'chain:3',
+                 'text:multiline',
                  'chain:4', 'chain:5',
                  'err:syntax'],
     'rule': ('cases = (expression text, argument order); enumerated: all '
@@ -207,6 +208,16 @@ def drive(t, order, i):
             o7 = OBDD('lambda  %s :  ( %s )' % (' , '.join(order), e))
             check_equal('c18.lambda', dict(case, lam='spaced lambda'), o7, o,
                         order, 'blanks in the lambda form do not matter')
+            # line breaks inside parentheses (legal Python), both spellings
+            for style in (0, 1):
+                ml = '(' + text(t, style).replace(' & ', ' &\n ') \
+                    .replace(' | ', '\n| ').replace(' and ', ' and\n') \
+                    .replace(' or ', '\nor ').replace('not ', 'not\n') + ')'
+                LOG.sig['text:multiline'] += 1
+                o8 = OBDD(ml, list(order))
+                check_equal('c18.synonyms', dict(case, multiline=ml), o8, o,
+                            order, 'line breaks inside parentheses do not '
+                                   'matter')
     except Exception as ex:
         LOG.hit('c18.print_obdd')
         LOG.violation('c18.print_obdd', PROP, dict(case, printed=sobdd),
@@ -390,7 +401,18 @@ def replay(ctx, rep):
         # expression text itself is replayed
         e = c['expr']
         order = c['order']
-        o = OBDD(e, list(order))
+        try:
+            o = OBDD(e, list(order))
+            for key in ('multiline', 'spaced'):
+                if key in c:
+                    check_equal('c18.synonyms', c, OBDD(c[key], list(order)),
+                                o, order, 'layout does not matter')
+        except mon.PostBroken:
+            raise
+        except Exception as ex:
+            LOG.violation('c18.lambda', PROP, c, mon.fmt_exc(ex), 'an OBDD',
+                          note='expression form raised')
+            return
         lam = 'lambda %s: %s' % (','.join(order), e)
         try:
             ol = OBDD(lam)
